@@ -34,7 +34,7 @@ PROPS["C02"] = {
     "level": "exploration",
     "rule": "case = one seeded mutating history; a crash point = every boundary between API calls at which no handle holds "
             "unflushed data; at each, the MonFile bytes taken WITHOUT flush are reopened permissive and strict and the full dump "
-            "compared with model and live object; 15% of crash points fork the next 5-15 operations onto the reopened file; a fifth of the histories start from a synthesised foreign layout; four shards run a large scenario instead (v3 past the first DIFAT sector - thorough: the second -, v4 past 1024 sectors, v4 past 1024 mini sectors and 32 directory entries) with a crash point at every new FAT / MiniFAT / directory sector (in quick the second DIFAT sector is reached by one 8.4 MB set_len at the end); five shards first run the beyond-4-GiB scenario on a sparse store. "
+            "compared with model and live object; 15% of crash points fork the next 5-15 operations onto the reopened file; a fifth of the histories start from a synthesised foreign layout; four shards run a large scenario instead (v3 past the first DIFAT sector - thorough: the second -, v4 past 1024 sectors, v4 past 1024 mini sectors and 32 directory entries) with a crash point at every new FAT / MiniFAT / directory sector (in quick the second and third DIFAT sectors are reached by one 17 MB set_len at the end); six shards first run the beyond-4-GiB scenario on a sparse store (five version 4 variants around 2^32, one version 3 stream of 2 GiB and a little), one shard a storage with 33100 children (more than 8192 directory sectors) with removals and creations among the last entries. "
             "non-trivial = history of >= 5 steps that was not abandoned; distinct = FNV-64 of (version, step list)",
     "assumptions": COMMON_ASSUMPTIONS + ["only logical results are compared after a reopen (free lists are rebuilt in index order, so byte images may legitimately differ)"],
     "checked_share": 0.6,
@@ -42,7 +42,7 @@ PROPS["C02"] = {
     "thorough": {"budget_s": 300},
     "floors": {
         "quick": {"crash_points": 50000, "forks": 5000, "hdr_change.num_fat_sectors": 100, "hdr_change.num_minifat": 1000, "hdr_change.first_minifat": 500,
-                  "large_scenarios": 4, "huge.scenarios_passed": 5, "large_scenario.crash_points_past_second_difat_sector": 1, "large_scenario.crash_points_with_difat_sector": 10, "large_scenario.variant1.crash_points": 4, "large_scenario.variant3.crash_points": 6},
+                  "large_scenarios": 4, "huge.scenarios_passed": 5, "large_scenario.crash_points_past_second_difat_sector": 1, "large_scenario.crash_points_past_third_difat_sector": 1, "wide.persist_scenarios_passed": 1, "large_scenario.crash_points_with_difat_sector": 10, "large_scenario.variant1.crash_points": 4, "large_scenario.variant3.crash_points": 6},
         "thorough": {"crash_points": 500000, "forks": 50000},
     },
 }
@@ -61,7 +61,7 @@ PROPS["C03"] = {
     "quick": {"budget_s": 22},
     "thorough": {"budget_s": 300},
     "floors": {
-        "quick": {"images_checked": 100000, "images_with_difat_sector": 1, "images_with_two_difat_sectors": 1, "large_scenario.1": 1, "large_scenario.2": 1, "large_scenario.4": 1, "wide.rules_scenarios_passed": 8},
+        "quick": {"images_checked": 100000, "images_with_difat_sector": 1, "images_with_two_difat_sectors": 1, "images_with_three_difat_sectors": 1, "large_scenario.1": 1, "large_scenario.2": 1, "large_scenario.4": 1, "wide.rules_scenarios_passed": 8},
         "thorough": {"images_checked": 1000000, "images_with_difat_sector": 2},
     },
 }
@@ -89,7 +89,7 @@ PROPS["C07"] = {
     "level": "exploration",
     "rule": "case = one seeded history with up to 6 long-lived handles on different streams interleaved with removals (steered, by the "
             "independent parser's view of the sibling trees, onto entries with two children while handles sit on their in-order "
-            "predecessor / successor / parent), creations reusing the freed slot, overwrites/resizes of other streams; per-step "
+            "predecessor / successor / parent), creations reusing the freed slot, overwrites/resizes of other streams (payloads include runs of zeros covering whole aligned sectors, written over non-zero data; the root carries a CLSID and state bits in two cases of three); per-step "
             "len/position check, and at checkpoints (all handles flushed) the full dump through fresh lookups AND through the "
             "independent parser is compared with the model. non-trivial = history with >= 1 two-child removal; distinct = FNV-64 of steps",
     "assumptions": COMMON_ASSUMPTIONS + ["a stream with a live handle is never removed or overwritten (outside the property)"],
@@ -147,7 +147,7 @@ PROPS["C10"] = {
             "existing name incl. case variant, non-empty storage, root, escaping path, invalid name, multi-step create_storage_all / "
             "remove_storage_all, out-of-range seek with a dirty buffer), long-lived dirty handles mixed in; for every call the model "
             "predicts as refused and that is refused: zero write events on the backing store, bytes identical, handle len/position "
-            "unchanged, and all later dumps equal a model that never saw the call; a call refused with NotFound / AlreadyExists / InvalidInput although the model expected success must leave the bytes unchanged too; eight shards first run a wide scenario (storage with 1023-1500 children in a chain: five predicted refusals, then remove_stream of the deepest and a mid-chain entry and remove_storage_all, each judged if refused). non-trivial = >= 3 refusals checked; distinct = FNV-64 of steps",
+            "unchanged, and all later dumps equal a model that never saw the call; a call refused with NotFound / AlreadyExists / InvalidInput although the model expected success must leave the bytes unchanged too; eight shards first run a wide scenario (storage with 1023-1500 children in a chain: five predicted refusals, then remove_stream of the deepest and a mid-chain entry and remove_storage_all, each judged if refused); one shard grows a version 3 stream to 2 GiB - 1, 2 GiB, 2 GiB + 1000 on a sparse store (a refusal there must leave the store unchanged). non-trivial = >= 3 refusals checked; distinct = FNV-64 of steps",
     "assumptions": COMMON_ASSUMPTIONS,
     "checked_share": 0.6,
     "quick": {"budget_s": 18},
@@ -155,7 +155,7 @@ PROPS["C10"] = {
     "floors": {
         "quick": {"refusals_checked": 300000, "refusals_multi_step": 30000, "refusals_with_dirty_handle_present": 20000,
                   "refusal.seek | refuse:out_of_range+dirty_buffer": 2000, "refusal.create_storage_all | refuse:invalid_name": 10000,
-                  "refusal.create_storage | refuse:parent_is_stream": 5000, "refusal.remove_storage | refuse:not_empty": 5000, "wide.noeffect_scenarios_passed": 8, "wide.refusals_checked": 30},
+                  "refusal.create_storage | refuse:parent_is_stream": 5000, "refusal.remove_storage | refuse:not_empty": 5000, "wide.noeffect_scenarios_passed": 8, "wide.refusals_checked": 30, "huge.v3_limit_probes": 1},
         "thorough": {"refusals_checked": 3000000},
     },
 }
@@ -168,7 +168,7 @@ PROPS["C15"] = {
             "rewrite, rewrite across the 4096 cutoff through a new handle, append across the cutoff and shrink back, large -> small -> "
             "remove, storage + state bits; one case in 30 - thorough 12 - with megabyte sizes: streams of 2.2-6 MB, growth steps of 1-2.6 MB), a quarter of them with a reopen at the end of every repetition; the model certifies the "
             "cycle is net-zero, then the length of the backing store after every repetition r >= 3 must equal that after repetition 2 "
-            "('unchanged from the second repetition on'). non-trivial = cycle certified net-zero and "
+            "('unchanged from the second repetition on'); in addition, from the second repetition on, the image just before every write that extends the file must not list a free sector in its FAT, and a step that extends the mini stream must have used up every mini sector that was free before it ('space released is reused by later allocations'). non-trivial = cycle certified net-zero and "
             "measured; distinct = FNV-64 of steps",
     "assumptions": COMMON_ASSUMPTIONS,
     "checked_share": 0.5,
@@ -176,7 +176,7 @@ PROPS["C15"] = {
     "thorough": {"budget_s": 240},
     "floors": {
         "quick": {"cycles_checked": 30000, "cycles.template0.mini": 1500, "cycles.template0.regular": 500, "cycles.template1.mini": 1500,
-                  "cycles.template2.mini": 1500, "cycles.template4.regular": 500, "cycles.template7.mini": 500, "cycles.template7.regular": 300, "cycles.template8.mini": 500, "cycles.template9.mini": 500, "prefix.emptied": 5000, "prefix.fill_steered": 10000, "cycles_megabyte_sized": 500},
+                  "cycles.template2.mini": 1500, "cycles.template4.regular": 500, "cycles.template7.mini": 500, "cycles.template7.regular": 300, "cycles.template8.mini": 500, "cycles.template9.mini": 500, "prefix.emptied": 5000, "prefix.fill_steered": 10000, "cycles_megabyte_sized": 500, "growth_events_inspected": 200, "mini_growth_events_inspected": 1500},
         "thorough": {"cycles_checked": 300000},
     },
 }
@@ -207,7 +207,7 @@ PROPS["C18"] = {
             "API, dirty handles flushed before queries) replayed under: A in-memory, A' the same again, C in-memory with 35% shortened "
             "and 10% spuriously Interrupted underlying reads/writes, B a real std::fs::File via cfb::create (over an older, larger file "
             "left at that path) / create_with_version and re-read via cfb::open / open_rw (1 in 6 histories), D another max_buffer_size, E the other format version; per-call "
-            "normalised outcomes and final dump must be identical across all, final bytes identical across A, A', B, C; the final bytes of C are also reopened through shortened / interrupted reads in both modes (dump must match); six fixed histories take a v3 file past 109 and 236 FAT sectors (DIFAT chain) under all configurations. "
+            "normalised outcomes and final dump must be identical across all, final bytes identical across A, A', B, C; the final bytes of C are also reopened through shortened / interrupted reads in both modes (dump must match); six fixed histories take a v3 file past 109 and 236 FAT sectors (DIFAT chain) under all configurations; one history in eight starts from a synthesised foreign image (red-black trees with red nodes; configurations A, A', C, a second mostly-interrupted C2, D); BufRead is used with an exact count (fill_buf, consume one byte). "
             "non-trivial = >= 10 steps; distinct = FNV-64 of steps",
     "assumptions": COMMON_ASSUMPTIONS + ["the reported 'length' of storages/root (physical mini-stream size) is not compared across buffer sizes / versions"],
     "checked_share": 0.5,
@@ -215,7 +215,7 @@ PROPS["C18"] = {
     "thorough": {"budget_s": 240},
     "floors": {
         "quick": {"histories": 10000, "configurations_compared": 40000, "real_files_written": 1000, "underlying_calls_shortened": 10000000,
-                  "underlying_calls_interrupted": 3000000, "histories_with_difat_chain": 6, "reopens_through_perturbed_reads": 20000},
+                  "underlying_calls_interrupted": 3000000, "histories_with_difat_chain": 6, "reopens_through_perturbed_reads": 20000, "histories_on_a_foreign_start_image": 1500},
         "thorough": {"histories": 100000},
     },
 }
@@ -225,7 +225,7 @@ PROPS["C04"] = {
     "rule": "case = one random logical tree (0-70 objects, names incl. exceptional upper-casing and supplementary characters, sizes "
             "from the boundary set, CLSIDs/state/times) written by the independent synthesiser under a random legal layout (sector "
             "roles permuted with FREE sectors in between, fragmented non-monotone chains, directory entries in random slots with gaps, "
-            "textbook red-black sibling trees, permuted mini sectors, FAT sectors anywhere, garbage in all unowned bytes (a third), one or two spare FAT sectors (two fifths; such files are then grown until the library appends a FAT sector of its own), one > 109-FAT-sector DIFAT-chain image per "
+            "textbook red-black sibling trees, permuted mini sectors, FAT sectors anywhere, garbage in all unowned bytes (a third), one or two spare FAT sectors (two fifths; such files are then grown until the library appends a FAT sector of its own), other header minor versions, red tops of sibling trees where that creates no red-red edge, a partial final sector (file ends after the last used byte), opened with several buffer sizes, one > 109-FAT-sector DIFAT-chain image per "
             "shard); must pass the synth/refparse self-check (else harness error), then open strict+permissive with dump == tree and "
             "case-variant lookups, then a 10-30 step history with the C01+C02+C03 monitors. non-trivial = image with >= 3 objects "
             "accepted in both modes; distinct = FNV-64 of the image bytes",
@@ -235,7 +235,7 @@ PROPS["C04"] = {
     "thorough": {"budget_s": 300},
     "floors": {
         "quick": {"opened.Strict": 8000, "opened.Permissive": 8000, "layout.red_nodes": 5000, "layout.dir_gaps": 5000, "layout.fragmented_chain": 3000,
-                  "layout.out_of_order_fat": 5000, "layout.free_sectors_inside": 2000, "layout.difat_chain": 8, "mutated_afterwards": 8000, "layout.spare_fat_sectors": 1500, "layout.dirty_slack_and_free_sectors": 1500, "spare_fat_filled_past_coverage": 800},
+                  "layout.out_of_order_fat": 5000, "layout.free_sectors_inside": 2000, "layout.difat_chain": 8, "mutated_afterwards": 8000, "layout.spare_fat_sectors": 1500, "layout.dirty_slack_and_free_sectors": 1500, "spare_fat_filled_past_coverage": 800, "layout.partial_final_sector": 60},
         "thorough": {"opened.Strict": 100000, "layout.difat_chain": 50},
     },
 }
@@ -314,7 +314,7 @@ PROPS["C12"] = {
     "rule": "workload = (library-written image with mini and regular streams in both versions, read-only call script: open, walk, lookups, "
             "per stream ~14 buffered reads in odd chunk sizes / fill_buf+consume / forward and backward seeks through a 1024-byte buffer, "
             "read_to_end) on a Read+Seek-only backend; the fault-free run counts the N underlying read/seek calls; then a one-shot failure "
-            "is injected at EVERY position k < N (kinds Other, UnexpectedEof, TimedOut, Interrupted, plus 'short then fail'); after a failed read the "
+            "is injected at EVERY position k < N (kinds Other, UnexpectedEof, TimedOut, Interrupted, plus 'short then fail', plus a burst of three consecutive TimedOut / WouldBlock failures at every position); after a failed read the "
             "script looks behind the position (seek back, read, seek forward) and then retries the call up to 3x; pairs (k1,k2) exhaustively when N <= 150 else 1500 (quick) / 20000 (thorough) sampled pairs. One "
             "workload per shard in quick (16), 6 per shard in thorough. evaluations = faulty runs; distinct_nontrivial = distinct "
             "(workload, position, variant) triples; exhaustive = every workload's single-fault positions were all visited",
@@ -323,7 +323,7 @@ PROPS["C12"] = {
     "quick": {"budget_s": 40},
     "thorough": {"budget_s": 400},
     "floors": {
-        "quick": {"exhaustive_workloads": 16, "positions_visited": 10000, "runs.single_fault": 30000, "runs.short_then_fail": 10000, "runs.fault_pair": 10000, "retries_that_succeeded": 30000},
+        "quick": {"exhaustive_workloads": 16, "positions_visited": 10000, "runs.single_fault": 30000, "runs.short_then_fail": 10000, "runs.fault_pair": 10000, "runs.burst_of_three": 10000, "retries_that_succeeded": 30000},
         "thorough": {"exhaustive_workloads": 90},
     },
 }
@@ -338,7 +338,7 @@ PROPS["C13"] = {
             "write then fail'), plus a 'store full' sweep (from the k-th write on every underlying write returns Ok(0)); each failed API call is retried up to 2x; every faulty run is limited to 50x the fault-free underlying call count + 20000 (bounded progress in logical steps). Oracles: the API call inside which the underlying call failed "
             "returns Err; no panic and no request on the (instrumented) lock that would block forever; an Ok flush implies the underlying "
             "writer was flushed after its last write; an Ok set_len shows the new length to a fresh lookup; whenever Stream::flush returns Ok a fresh handle reads back every byte accepted by earlier write "
-            "calls on that handle, and so does the reopened byte image - also after a failed flush. One workload per shard in quick (three script families: two handles with migrations; v3 directory/FAT growth and truncating re-creation; v4 directory growth at the 33rd entry, swept from that creation on), six in thorough. evaluations = faulty runs; "
+            "calls on that handle, and so does the reopened byte image - also after a failed flush; once every failed call has succeeded on retry (and the store did not tear a write) the stored bytes must open again and hold the state bits that set_state_bits reported as set - also when the failure hit a structural call. One workload per shard in quick (three script families: two handles with migrations; v3 directory/FAT growth and truncating re-creation; v4 directory growth at the 33rd entry, swept from that creation on), six in thorough. evaluations = faulty runs; "
             "distinct_nontrivial = distinct (workload, kind, position); exhaustive = all positions of all four sweeps visited (family C: all positions from its marker on)",
     "assumptions": COMMON_ASSUMPTIONS + ["errors swallowed by Stream::drop are outside the property (handles are flushed explicitly, and leaked rather than dropped if that keeps failing)",
                                          "after a failed structural call (create/remove/set_len) the affected content is no longer compared; only error reporting and no-panic are judged"],
@@ -347,7 +347,7 @@ PROPS["C13"] = {
     "quick": {"budget_s": 45},
     "thorough": {"budget_s": 400},
     "floors": {
-        "quick": {"exhaustive_workloads": 16, "positions.write": 8000, "positions.seek": 8000, "positions.flush": 100, "positions.full": 8000, "ok_flush_readbacks": 50000, "ok_flush_after_failed_flush_readbacks": 5000, "ok_flush_reopen_readbacks": 50000},
+        "quick": {"exhaustive_workloads": 16, "positions.write": 8000, "positions.seek": 8000, "positions.flush": 100, "positions.full": 8000, "ok_flush_stored_file_opens": 100000, "ok_metadata_reopen_checked": 20000, "ok_flush_readbacks": 50000, "ok_flush_after_failed_flush_readbacks": 5000, "ok_flush_reopen_readbacks": 50000},
         "thorough": {"exhaustive_workloads": 96},
     },
 }
@@ -406,7 +406,7 @@ PROPS["C14"] = {
             "certified by the wait-for state (every live worker requested-not-granted > 2 s). M2 stress (12 processes): 1-8 readers x "
             "50-400 read-only calls against 30-200 writer operations (append, flush, set_len - twice per round by 4.3-9.3 MB -, read) with random micro-delays at "
             "Request/Released; every reader observation of entry().len() must equal the directory-entry length after some whole writer "
-            "operation overlapping it. M3: Miri (-Zmiri-many-seeds, 16 seeds quick / 192 thorough) on a 2-reader + writer program. "
+            "operation overlapping it; every other read-only result is compared with the facts no stream operation changes (names, kinds, counts, walk shapes; nested non-ASCII paths included); the writer also appends to up to four pre-opened handles on other streams and drops them dirty while the readers run (the bytes must be there afterwards). M3: Miri (-Zmiri-many-seeds, 16 seeds quick / 192 thorough) on a 2-reader + writer program. "
             "evaluations = rounds + Miri seeds; distinct_nontrivial = distinct acquisition sites (M1) + distinct grant-order prefixes (M2)",
     "assumptions": COMMON_ASSUMPTIONS + [
         "'all calls complete' is decided on a recorded all-waiting state held for 2 s, never on a wall-clock timeout alone",
@@ -417,7 +417,7 @@ PROPS["C14"] = {
     "quick": {"budget_s": 25},
     "thorough": {"budget_s": 300},
     "floors": {
-        "quick": {"m1.distinct_acquisition_sites": 8, "m1.handle_scripts": 10, "m1.two_handle_scripts": 2, "m2.forced_rounds": 60, "m2.stress_rounds": 100, "m2.reader_results_checked": 20000,
+        "quick": {"m1.distinct_acquisition_sites": 8, "m1.handle_scripts": 10, "m1.two_handle_scripts": 2, "m2.dirty_handle_drops_checked": 300, "m2.forced_rounds": 60, "m2.stress_rounds": 100, "m2.reader_results_checked": 20000,
                   "m3.miri_seeds_completed": 16},
         "thorough": {"m2.stress_rounds": 1000, "m3.miri_seeds_completed": 192},
     },
